@@ -91,8 +91,22 @@ static std::string do_export(int code, int tr, Cur c) {
     return S.bytes();   // objects are leaked on purpose: one-shot driver commands
 }
 
+// transport 2: the C++-stream API over a stream buffer that delivers its data piecewise (97 bytes per refill), as a file, pipe
+// or socket buffer does; the import must behave exactly as over a string stream
+struct ChunkBuf : std::streambuf {
+    std::string data; size_t pos; char buf[97];
+    ChunkBuf(const std::string &d) : data(d), pos(0) { setg(buf, buf, buf); }
+    int_type underflow() override {
+        if (gptr() < egptr()) return traits_type::to_int_type(*gptr());
+        if (pos >= data.size()) return traits_type::eof();
+        size_t n = std::min(sizeof buf, data.size() - pos); memcpy(buf, data.data() + pos, n); pos += n; setg(buf, buf, buf + n);
+        return traits_type::to_int_type(*gptr());
+    }
+    size_t left() const { return (data.size() - pos) + (size_t) (egptr() - gptr()); }
+};
+
 // one import from the given transport; appends the flattened fields
-static void import_one(int code, int tr, FILE *F, std::istringstream &is, const V &ctx, std::string &f) {
+static void import_one(int code, int tr, FILE *F, std::istream &is, const V &ctx, std::string &f) {
 #define IMPORT_NEW(fn) (tr == 0 ? fn##_fromFile(F) : fn##_fromStream(is))
 #define IMPORT_INTO(fn, ...) do { if (tr == 0) fn##_fromFile(F, __VA_ARGS__); else fn##_fromStream(is, __VA_ARGS__); } while (0)
     if (code == 1) { LweParams *p = IMPORT_NEW(new_lweParams); pr_lp(f, p); }
@@ -119,13 +133,14 @@ static void child_import(std::vector<int> codes, int tr, Cur c, int outfd) {
     V ctx; int code = codes[0]; int nctx = codes.size() > 1 ? 0 : code == 2 ? 1 : code == 5 ? 2 : code == 8 ? 3 : 0;
     for (int i = 0; i < nctx; i++) ctx.push_back(c.next());
     ll nb = c.next(); std::string bytes((size_t) nb, 0); for (ll i = 0; i < nb; i++) bytes[i] = (char) c.next();
-    FILE *F = NULL; std::istringstream is(bytes);
+    FILE *F = NULL; std::istringstream iss(bytes); ChunkBuf cb(bytes); std::istream ics(&cb); std::istream &is = (tr == 2) ? ics : (std::istream &) iss;
     if (tr == 0) { F = tmpfile(); if (nb) fwrite(bytes.data(), 1, nb, F); rewind(F); }
     if (!freopen("/dev/null", "w", stderr)) {}
     std::string o, f;
     for (size_t q = 0; q < codes.size(); q++) { if (q) f += "| "; import_one(codes[q], tr, F, is, ctx, f); }
     ll eofb, failb, remaining;
     if (tr == 0) { eofb = feof(F) ? 1 : 0; failb = ferror(F) ? 1 : 0; long pos = ftell(F); remaining = nb - pos; }
+    else if (tr == 2) { eofb = is.eof(); failb = is.fail(); remaining = (ll) cb.left(); }
     else { eofb = is.eof(); failb = is.fail(); remaining = (ll) is.rdbuf()->in_avail(); if (remaining < 0) remaining = 0; }
     pr(o, 0); pr(o, eofb); pr(o, failb); pr(o, remaining); o += f; o += "\n";
     size_t off = 0; while (off < o.size()) { ssize_t w = write(outfd, o.data() + off, o.size() - off); if (w <= 0) break; off += w; }
